@@ -110,4 +110,80 @@ theorem isWalk_no_panic (h : Heap) (cmp : Val → Bool) (t : Val)
         | foreignNil => simp
         | plain u m => simp
 
+/-! ### `errors.As` with a target of any type -/
+
+theorem asWalk_ref_step (h : Heap) (ty : Val → Nat) (k fuel id : Nat) (hne : ty (.ref id) ≠ k) :
+    asWalk h ty k (fuel + 1) (.ref id) = asWalk h ty k fuel (unwrap h (.ref id)) := by
+  have h0 : (Val.ref id == Val.nilIface) = false := by simp
+  have h1 : (ty (Val.ref id) == k) = false := by simpa using hne
+  simp [asWalk, h0, h1]
+
+theorem asWalk_self (h : Heap) (ty : Val → Nat) (k fuel : Nat) (v : Val) (hv : v ≠ .nilIface) (ht : ty v = k) :
+    asWalk h ty k (fuel + 1) v = .found v := by
+  have h0 : (v == Val.nilIface) = false := by simpa using hv
+  simp [asWalk, h0, ht]
+
+/-- a fresh cell whose cause is the non-nil value `c` of type `k` (not the type of `*errs.Error`): `errors.As(cell, &T_k)`
+    stores `c` -/
+theorem errorsAs_push_cause (h : Heap) (ty : Val → Nat) (k : Nat) (n : ENode) (c : Val) (hn : n.cause = c)
+    (hc0 : c ≠ .nilIface) (hty : ty c = k) (hr : ty (.ref h.size) ≠ k) :
+    errorsAs (h.push n) ty k (.ref h.size) = .found c := by
+  unfold errorsAs
+  obtain ⟨j, hj⟩ : ∃ j, walkFuel (h.push n) (.ref h.size) = j + 2 :=
+    ⟨walkFuel (h.push n) (.ref h.size) - 2, by have := walkFuel_ge (h.push n) (.ref h.size); omega⟩
+  rw [hj, asWalk_ref_step _ _ _ _ _ hr]
+  have hu : unwrap (h.push n) (.ref h.size) = c := by simp [unwrap, hn]
+  rw [hu]
+  exact asWalk_self _ _ _ _ _ hc0 hty
+
+/-! ### `%q`: the quoted rendering can be read back -/
+
+/-- reading a `strconv.Quote`d body back (the five escapes the model writes) -/
+def unquoteChars : List Char → List Char
+  | '\\' :: 'n' :: r => '\n' :: unquoteChars r
+  | '\\' :: 't' :: r => '\t' :: unquoteChars r
+  | '\\' :: 'r' :: r => '\r' :: unquoteChars r
+  | '\\' :: '"' :: r => '"' :: unquoteChars r
+  | '\\' :: '\\' :: r => '\\' :: unquoteChars r
+  | c :: r => c :: unquoteChars r
+  | [] => []
+
+theorem unq_other (c : Char) (r : List Char) (hc : c ≠ '\\') : unquoteChars (c :: r) = c :: unquoteChars r := by
+  conv => lhs; unfold unquoteChars
+  split <;> simp_all
+def quoteChars (l : List Char) : List Char := l.flatMap (fun c => (quoteChar c).toList)
+theorem quoteChar_cases (c : Char) :
+    (c = '"' ∧ (quoteChar c).toList = ['\\', '"']) ∨ (c = '\\' ∧ (quoteChar c).toList = ['\\', '\\']) ∨
+    (c = '\n' ∧ (quoteChar c).toList = ['\\', 'n']) ∨ (c = '\t' ∧ (quoteChar c).toList = ['\\', 't']) ∨
+    (c = '\r' ∧ (quoteChar c).toList = ['\\', 'r']) ∨ (c ≠ '\\' ∧ (quoteChar c).toList = [c]) := by
+  unfold quoteChar
+  by_cases h1 : c = '"'
+  · subst h1; left; exact ⟨rfl, by decide⟩
+  by_cases h2 : c = '\\'
+  · subst h2; right; left; exact ⟨rfl, by decide⟩
+  by_cases h3 : c = '\n'
+  · subst h3; right; right; left; exact ⟨rfl, by decide⟩
+  by_cases h4 : c = '\t'
+  · subst h4; right; right; right; left; exact ⟨rfl, by decide⟩
+  by_cases h5 : c = '\r'
+  · subst h5; right; right; right; right; left; exact ⟨rfl, by decide⟩
+  right; right; right; right; right
+  refine ⟨h2, ?_⟩
+  simp [h1, h2, h3, h4, h5]
+theorem unquote_quote : ∀ l : List Char, unquoteChars (quoteChars l) = l := by
+  intro l
+  induction l with
+  | nil => rfl
+  | cons c r ih =>
+    have hq : quoteChars (c :: r) = (quoteChar c).toList ++ quoteChars r := by simp [quoteChars]
+    rw [hq]
+    rcases quoteChar_cases c with ⟨rfl, h⟩ | ⟨rfl, h⟩ | ⟨rfl, h⟩ | ⟨rfl, h⟩ | ⟨rfl, h⟩ | ⟨hc, h⟩
+    all_goals rw [h]
+    · simp [unquoteChars, ih]
+    · simp [unquoteChars, ih]
+    · simp [unquoteChars, ih]
+    · simp [unquoteChars, ih]
+    · simp [unquoteChars, ih]
+    · simp only [List.singleton_append]; rw [unq_other c _ hc, ih]
+
 end Errs
